@@ -11,7 +11,7 @@ from rfbreal import Cfg, canon_model, merge_writes
 TRUSTED_BASE = ["Model/Rfb.v (commit / waiter / op_capture) hand-written", "harness/rfbgen.py reference canvas and encoders",
                 "Pillow PNG save/load (the saved file is decoded again to compare pixels)"]
 ASSUMPTIONS = ["captures are sequential (script chain / blocking API): a new capture is issued after - possibly from the completion callback of - the previous one"]
-EXTRA_VO = ["Proofs/RfbTie.vo"]
+EXTRA_VO = ["Proofs/RfbTieMessages.vo"]
 
 
 def build(rng):
